@@ -179,7 +179,7 @@ def run_prog(obs, argv, what):
         obs.active = False
     reads, haps, gts = obs.take()
     if code != 0:
-        raise C.Infra(f"{what}: exit {code}: {err[:500]}")
+        raise C.ProgramAbort(f"{what}: exit {code}: {err[:500]}")
     hdr, recs = synth.parse_vcf_text(out)
     return {"records": recs, "reads": reads, "haps": haps, "gts": gts}
 
@@ -656,7 +656,7 @@ def run(tier, replay=None):
                 queue_assemble_cases(pending, base[prog], f"{prog} all")
             out, code, err = synth.run_program(argv_for("assemble", ds.samples))
             if code != 0:
-                raise C.Infra(err[:300])
+                raise C.ProgramAbort(err[:300])
             # the last record is turned into one that cannot be called (reference masked, no alternative allele: filter NOA):
             # the callers then write missing calls, whose shape depends on the sample's own ploidy only
             lines_ = out.split("\n")
